@@ -35,25 +35,26 @@ var (
 	evRx   = sim.RegisterEv(501, "rx")
 	evSess = sim.RegisterEv(502, "session-fault")
 
-	cNontrivial = simrt.RegisterCounter("nontrivial")
-	cSent       = simrt.RegisterCounter("op_frames_sent")
-	cArrivals   = simrt.RegisterCounter("op_arrivals_judged")
-	cAccepted   = simrt.RegisterCounter("probe_accepted")
-	cRejected   = simrt.RegisterCounter("probe_rejected")
-	cContent    = simrt.RegisterCounter("probe_content_compared")
-	cUndecod    = simrt.RegisterCounter("probe_undecodable_after_corruption")
-	cCollision  = simrt.RegisterCounter("probe_mic_collision")
-	cRollover   = simrt.RegisterCounter("probe_fcnt16_rollover")
-	cV11        = simrt.RegisterCounter("probe_lorawan11_frames")
-	cAckConf    = simrt.RegisterCounter("probe_ack_with_conffcnt")
-	cPort0      = simrt.RegisterCounter("probe_port0_commands")
-	cFOptsEnc   = simrt.RegisterCounter("probe_encrypted_fopts")
-	cBig        = simrt.RegisterCounter("probe_payload_over_200")
-	cLive       = simrt.RegisterCounter("probe_liveness_frames")
-	cEmptyPort0 = simrt.RegisterCounter("probe_port0_without_commands")
-	cResend     = simrt.RegisterCounter("probe_application_payload_resent_under_next_counter")
-	cText       = simrt.RegisterCounter("probe_frames_received_as_base64_text")
-	cReuseRx    = simrt.RegisterCounter("probe_receiver_reuses_its_frame_value")
+	cNontrivial    = simrt.RegisterCounter("nontrivial")
+	cSent          = simrt.RegisterCounter("op_frames_sent")
+	cArrivals      = simrt.RegisterCounter("op_arrivals_judged")
+	cAccepted      = simrt.RegisterCounter("probe_accepted")
+	cRejected      = simrt.RegisterCounter("probe_rejected")
+	cContent       = simrt.RegisterCounter("probe_content_compared")
+	cUndecod       = simrt.RegisterCounter("probe_undecodable_after_corruption")
+	cCollision     = simrt.RegisterCounter("probe_mic_collision")
+	cRollover      = simrt.RegisterCounter("probe_fcnt16_rollover")
+	cV11           = simrt.RegisterCounter("probe_lorawan11_frames")
+	cAckConf       = simrt.RegisterCounter("probe_ack_with_conffcnt")
+	cPort0         = simrt.RegisterCounter("probe_port0_commands")
+	cFOptsEnc      = simrt.RegisterCounter("probe_encrypted_fopts")
+	cBig           = simrt.RegisterCounter("probe_payload_over_200")
+	cLive          = simrt.RegisterCounter("probe_liveness_frames")
+	cEmptyPort0    = simrt.RegisterCounter("probe_port0_without_commands")
+	cResend        = simrt.RegisterCounter("probe_application_payload_resent_under_next_counter")
+	cLegacyRefused = simrt.RegisterCounter("probe_frame_with_legacy_value_refused_not_judged")
+	cText          = simrt.RegisterCounter("probe_frames_received_as_base64_text")
+	cReuseRx       = simrt.RegisterCounter("probe_receiver_reuses_its_frame_value")
 
 	fLoss       = simrt.RegisterCounter("fault_loss")
 	fDup        = simrt.RegisterCounter("fault_duplicate")
@@ -548,6 +549,11 @@ func sendUplink(w *world, id int, r *sim.Rand, live bool) {
 	noteFrame(f, &d.sess)
 	lib := f.ToLib()
 	wire, stage, err := pipe.SealOrder(&d.sess, lib, tx, r.Intn(2) == 0)
+	if err != nil && !f.AllInSpec() {
+		simrt.Count(cLegacyRefused)
+		d.fcntUp++
+		return
+	}
 	if err != nil {
 		simrt.Report("o3.sender:"+stage, fmt.Sprintf("spec-valid uplink %v refused at %s: %v", f, stage, err))
 		d.fcntUp++
@@ -624,6 +630,10 @@ func sendDownlink(w *world, id int, r *sim.Rand, ack bool, live bool) {
 	tx := pipe.TxParams{ConfFCnt: n.lastConfUp}
 	noteFrame(f, &n.sess)
 	wire, stage, err := pipe.SealOrder(&n.sess, f.ToLib(), tx, r.Intn(2) == 0)
+	if err != nil && !f.AllInSpec() {
+		simrt.Count(cLegacyRefused)
+		return
+	}
 	if err != nil {
 		simrt.Report("o3.sender:"+stage, fmt.Sprintf("spec-valid downlink %v refused at %s: %v", f, stage, err))
 		return
